@@ -30,6 +30,7 @@ type rtEnv struct {
 	ca                  *CA
 	oa, ob, ol          *Peer // origins: 127.0.0.2, 127.0.0.3, 127.0.0.1 ("localhost")
 	p, q, t, s, r       *Peer // http proxy P, http proxy Q, https proxy T, socks5 S, redirect target R
+	dead                string // host:port nobody listens on ("@D" in rules)
 	oa80, oa443         *Peer // a.test on the default ports (plain :80, TLS :443); nil if the ports cannot be bound
 	mu                  sync.Mutex
 	socks               []Socks5Req
@@ -120,6 +121,7 @@ func getRT() (*rtEnv, error) {
 		// combine one peer's host with another's port, and such an address must not be somebody else's listener
 		blk := strings.TrimSuffix(oaIP, "2")
 		rtNames["b.test"] = blk + "3"
+		e.dead = FreeAddr(blk + "9") // an address of this laboratory where nobody listens
 		e.oa = mk("OA", oaIP, nil, HTTPHandler(proxyResponder("OA"), nil))
 		e.ob = mk("OB", blk+"3", nil, HTTPHandler(proxyResponder("OB"), nil))
 		e.ol = mk("OL", "127.0.0.1", nil, HTTPHandler(proxyResponder("OL"), nil))
@@ -189,6 +191,7 @@ type RTConfig struct {
 	// tests them: "alt" (the URL's path contains /alt), "A80" / "A443" (a.test on that port, explicit or implied by the
 	// scheme), "A" "B" "L" (the host, any port), "*" (otherwise).
 	PAC        map[string]string `json:"pac,omitempty"`
+	Retries    bool              `json:"retries,omitempty"` // failed dials are retried (3 attempts): the rules are still applied once
 	DirectDom  []string          `json:"direct_domains,omitempty"`
 	Localhost  string            `json:"localhost"` // allow | direct
 	ConnectTo  []string          `json:"connect_to,omitempty"` // templates with @X.host @X.port
@@ -215,6 +218,9 @@ var pacResults = []string{"DIRECT", "", "PROXY @P", "PROXY @Q", "HTTP @P", "HTTP
 	"PROXY @P.host; PROXY @Q", "PROXY @P.host:http; DIRECT", "PROXY :80; PROXY @Q", "HTTP @P extra; PROXY @Q", "PROXY; PROXY @Q", "HTTPS @T.host:99999; PROXY @P", "SOCKS5 @S.host; DIRECT"}
 
 func (e *rtEnv) subst(s string) string {
+	if dh, dp, err := net.SplitHostPort(e.dead); err == nil {
+		s = strings.ReplaceAll(strings.ReplaceAll(s, "@D.host", dh), "@D.port", dp)
+	}
 	for n, p := range e.peers {
 		s = strings.ReplaceAll(s, "@"+n+".host", p.Host)
 		s = strings.ReplaceAll(s, "@"+n+".port", p.Port)
@@ -314,9 +320,10 @@ func genRTConfig(t *rapid.T, withCreds bool) RTConfig {
 		c.DirectDom = []string{`localhost`, `^b\.`}
 	}
 	c.Localhost = rapid.SampledFrom([]string{"allow", "allow", "direct"}).Draw(t, "localhost")
+	c.Retries = rapid.Bool().Draw(t, "retries")
 	nr := rapid.SampledFrom([]int{0, 0, 1, 1, 2, 3}).Draw(t, "nct")
 	for i := 0; i < nr; i++ {
-		src := rapid.SampledFrom([]string{"P", "Q", "T", "S", "OA", "OB", "OL"}).Draw(t, "ctsrc")
+		src := rapid.SampledFrom([]string{"P", "Q", "T", "S", "OA", "OB", "OL", "D"}).Draw(t, "ctsrc")
 		srcHost := "@" + src + ".host"
 		switch src {
 		case "OA":
@@ -328,13 +335,18 @@ func genRTConfig(t *rapid.T, withCreds bool) RTConfig {
 		}
 		sh := rapid.SampledFrom([]string{srcHost, srcHost, ""}).Draw(t, "ctsh")
 		sp := rapid.SampledFrom([]string{"@" + src + ".port", "@" + src + ".port", ""}).Draw(t, "ctsp")
-		dst := rapid.SampledFrom([]string{"R", "R", "OB", "Q"}).Draw(t, "ctdst")
+		dst := rapid.SampledFrom([]string{"R", "R", "OB", "Q", "D"}).Draw(t, "ctdst")
 		dh := rapid.SampledFrom([]string{"@" + dst + ".host", "@" + dst + ".host", ""}).Draw(t, "ctdh")
 		dp := "@" + dst + ".port"
 		if sh == "" && sp == "" {
 			sp = "@" + src + ".port" // a rule matching everything would also redirect nothing useful
 		}
 		c.ConnectTo = append(c.ConnectTo, sh+":"+sp+":"+dh+":"+dp)
+		if dst == "D" && rapid.Bool().Draw(t, "ctchain") {
+			// a chain: the address this rule leads to is itself the source of a later rule (rules apply once, not transitively)
+			next := rapid.SampledFrom([]string{"R", "Q", "OB"}).Draw(t, "ctchaindst")
+			c.ConnectTo = append(c.ConnectTo, "@D.host:@D.port:@"+next+".host:@"+next+".port")
+		}
 	}
 	if withCreds {
 		if (c.Upstream == "P" || c.Upstream == "T" || c.Upstream == "S") && rapid.Bool().Draw(t, "userinfo") {
@@ -381,7 +393,7 @@ func genRTReqs(t *rapid.T, withCreds bool, mitm bool) []RTReq {
 			}
 		}
 		if withCreds {
-			switch rapid.IntRange(0, 5).Draw(t, "pa") {
+			switch rapid.IntRange(0, 6).Draw(t, "pa") {
 			case 0:
 				r.Headers = append(r.Headers, Field{"Proxy-Authorization", "Basic " + base64.StdEncoding.EncodeToString([]byte("client:clientsecret-1"))})
 			case 1:
@@ -389,6 +401,11 @@ func genRTReqs(t *rapid.T, withCreds bool, mitm bool) []RTReq {
 					Field{"proxy-authorization", "Basic " + base64.StdEncoding.EncodeToString([]byte("client:clientsecret-2"))})
 			case 2:
 				r.Headers = append(r.Headers, Field{"Connection", "proxy-authorization"}, Field{"pRoXy-AuThOrIzAtIoN", "Bearer clientsecret-3"})
+			case 3:
+				// an upgrade request (the proxy puts Connection/Upgrade back after stripping hop-by-hop fields) that also
+				// nominates its Proxy-Authorization
+				r.Headers = append(r.Headers, Field{"Connection", rapid.SampledFrom([]string{"Upgrade, Proxy-Authorization", "proxy-authorization, upgrade", "Upgrade"}).Draw(t, "upgconn")},
+					Field{"Upgrade", "websocket"}, Field{"Proxy-Authorization", "Basic " + base64.StdEncoding.EncodeToString([]byte("client:clientsecret-1"))})
 			}
 			if rapid.IntRange(0, 2).Draw(t, "authz") == 0 {
 				// an Authorization of the client's own, in the schemes clients use (whatever it is, it is the client's)
@@ -559,6 +576,9 @@ func (e *rtEnv) startProxy(cfg RTConfig) (*ProxyInst, error) {
 	}
 	for _, r := range append(append([]string{}, cfg.ConnectTo...), rtBaseRules()...) {
 		o.ConnectTo = append(o.ConnectTo, e.subst(r))
+	}
+	if cfg.Retries {
+		o.DialAttempts, o.DialBackoff = 3, 2*time.Millisecond
 	}
 	for _, c := range cfg.Creds {
 		o.Credentials = append(o.Credentials, e.subst(c))
